@@ -30,9 +30,14 @@ def plan(tier, seed):
 
 def gen_cases(spec, ctx):
     r = ctx.rng
-    for _ in range(spec["n"]):
+    for i in range(spec["n"]):
         d = formats.common_data(r)
         z = formats.mutate_common(r, d)
+        if i % 12 == 5:
+            # whole documents that are empty or a single scalar (an empty list / mapping / string, 0, false ...): every one of
+            # the four formats can hold them at top level
+            d = r.choice([[], {}, 0, False, "", "x", 7, 1.5, True, [[]], {"a": {}}])
+            z = r.choice([[], {}, 1, True, "y", [2], {"a": [1, 2], "b": "c"}])
         yield {"d": d, "z": z, "ds": r.choice(gen.DS), "le": r.choice(gen.LE)}
 
 
